@@ -32,6 +32,9 @@ def gen_case(r, k):
     if mask is not None and mask.all():
         mask = None
     err = gens.error_map(r, ny, nx)
+    if err is not None and r.random() < 0.4:                     # non-finite errors are masked automatically, with or without a mask argument
+        for _ in range(r.randint(1, 3)):
+            err[r.randrange(ny), r.randrange(nx)] = r.choice([np.nan, np.inf])
     t = r.random()
     if t < 0.6:
         xy = (r.randint(2, 2 * (nx - 2)) / 2, r.randint(2, 2 * (ny - 2)) / 2)
